@@ -82,11 +82,11 @@ func SimC04(c *CheckCtx, i int, r *Rng) error {
 		c.Env.Stats.Add("probe/real-generators-world", 1)
 	}
 	// bias: map-valued arguments exercise the dumper's key order
-	if r.P(0.4) {
+	if r.P(0.6) {
 		for gi := range gens {
 			for k, rule := range gens[gi].Rules {
-				if len(rule.Render) > 0 && r.P(0.3) {
-					rule.Render = append(rule.Render, proto.Part{Text: "\nvar Lit_" + sanitize(gens[gi].Name+"_"+k) + " = "}, proto.Part{Value: `{"b":2,"a":1,"c":3,"aa":4,"B":5}`}, proto.Part{Text: "\n"})
+				if len(rule.Render) > 0 && r.P(0.4) {
+					rule.Render = append(rule.Render, proto.Part{Text: "\nvar Lit_" + sanitize(gens[gi].Name+"_"+k) + " = "}, proto.Part{Value: Pick(r, ValueKinds)}, proto.Part{Text: "\n"})
 					gens[gi].Rules[k] = rule
 				}
 			}
@@ -131,6 +131,16 @@ func SimC04(c *CheckCtx, i int, r *Rng) error {
 			pe = append(pe, eps[k])
 		}
 		sc.Variants = append(sc.Variants, Variant{Name: "perm:entrypoints", Ops: []Op{{Kind: "run", Run: mkRun(asc, spell(r, m, pe), true)}}})
+	}
+	// the same generator SET handed over in another order (each generator owns its own file)
+	if len(gens) > 2 {
+		pg := []proto.GenScript{gens[0]}
+		for _, k := range r.Perm(len(gens) - 1) {
+			pg = append(pg, gens[1+k])
+		}
+		run := mkRun(asc, args.Entrypoint, true)
+		run.Gens = pg
+		sc.Variants = append(sc.Variants, Variant{Name: "perm:generators", Ops: []Op{{Kind: "run", Run: run}}})
 	}
 	// the n-th run of a process that has already served other runs
 	sc.Variants = append(sc.Variants, Variant{Name: "proc:warm", Ops: []Op{
